@@ -6,13 +6,21 @@
 #![allow(clippy::all)]
 mod arith;
 mod dec;
+mod replay;
+mod rootpow;
+mod round;
+mod text;
 mod time;
 
 fn main() {
     let (module, mode, args) = vh::start();
     match module.as_str() {
         "time" => time::run(&mode, &args),
+        "replay" => replay::run(&mode, &args),
         "arith" => arith::run(&mode, &args),
+        "round" => round::run(&mode, &args),
+        "rootpow" => rootpow::run(&mode, &args),
+        "text" => text::run(&mode, &args),
         m => vh::unknown(m),
     }
 }
